@@ -83,7 +83,7 @@ def main():
             f.write(json.dumps(rec, default=repr) + "\n")
             f.flush()
         gen = mod.cases(seed, tier, shard, nshards)
-        nviol = 0
+        per_key = {}
         while True:
             if time.time() - t0 > budget:
                 break
@@ -127,8 +127,11 @@ def main():
                     nsamples += 1
                     emit({"t": "sample", "case": res.get("sample", case)})
             if res["ok"] is False:
-                nviol += 1
-                if nviol <= 200:
+                # cap per mechanism key, so a frequent (known) mechanism cannot crowd out
+                # a different violation in the forwarded sample
+                fk = res.get("finding")
+                per_key[fk] = per_key.get(fk, 0) + 1
+                if per_key[fk] <= (150 if fk is None else 25):
                     emit({"t": "violation", "case": case,
                           "result": {k: v for k, v in res.items() if k != "sample"}})
         extra = {}
